@@ -269,6 +269,115 @@ pub fn families() -> Vec<Box<dyn Family>> {
             },
         ),
         family(
+            "deadlines_and_empty_sides",
+            "text diffs built UNDER A DEADLINE (a real Instant in the past; a virtual clock expiring at deadline check #0, #1, #3; never expiring) for texts of 0, 1, 99..103, 150, 400 tokens against the empty text, a one-token text, or an edited copy x {lines, words, chars} x 3 algorithms x {str,[u8]}: whatever ops the cut-short diff produced, the remapper must return the exact substrings, no empty slice, and reconstruct both texts",
+            false,
+            4,
+            |cfg| cfg.n(1_500, 30_000),
+            |idx, cfg, out| {
+                let mut rng = Rng::for_case(cfg.seed, "c17.deadlines", idx);
+                let sizes = [0usize, 1, 2, 99, 100, 101, 102, 103, 150, 400];
+                let n = if cfg.tiny { rng.below(4) } else { *rng.pick(&sizes) };
+                let tok = rng.below(3);
+                let sep = match tok {
+                    0 => "\n",
+                    1 => " ",
+                    _ => "",
+                };
+                // for words each item gives 2 tokens (word + blank); chars: single letters
+                let items = if tok == 1 { (n + 1) / 2 } else { n };
+                let word = |i: usize, rng: &mut Rng| -> String {
+                    if tok == 2 {
+                        ((b'a' + (rng.below(20) as u8)) as char).to_string()
+                    } else {
+                        format!("w{}", if rng.chance(1, 2) { i } else { rng.below(7) })
+                    }
+                };
+                let va: Vec<String> = (0..items).map(|i| word(i, &mut rng)).collect();
+                let a: String = va.iter().map(|w| format!("{}{}", w, sep)).collect();
+                let b: String = match idx % 4 {
+                    0 => String::new(),
+                    1 => format!("x{}", sep),
+                    2 => {
+                        let mut vb = va.clone();
+                        for _ in 0..1 + rng.below(3) {
+                            if vb.is_empty() {
+                                break;
+                            }
+                            let i = rng.below(vb.len());
+                            if rng.chance(1, 2) {
+                                vb.remove(i);
+                            } else {
+                                vb.insert(i, "new".to_string());
+                            }
+                        }
+                        vb.iter().map(|w| format!("{}{}", w, sep)).collect()
+                    }
+                    _ => (0..rng.below(5)).map(|i| format!("other{}{}", i, sep)).collect(),
+                };
+                let (a, b) = if rng.chance(1, 2) { (a, b) } else { (b, a) };
+                let alg = ALGS[rng.below(3)];
+                out.sample(|| format!("tokenizer={} alg={} old={} new={}", TOKS[tok], alg_name(alg), show(a.as_bytes()), show(b.as_bytes())));
+                if a != b {
+                    out.nontrivial(&(tok, alg_name(alg), &a, &b));
+                }
+                for dl in 0..5u8 {
+                    for as_str in [true, false] {
+                        let ctx = || {
+                            format!(
+                                "tokenizer={} alg={} type={} deadline={} old={} new={}",
+                                TOKS[tok],
+                                alg_name(alg),
+                                if as_str { "str" } else { "[u8]" },
+                                ["a real Instant in the past", "expires at deadline check #0", "expires at deadline check #1", "expires at deadline check #3", "present, never expires"][dl as usize],
+                                show(a.as_bytes()),
+                                show(b.as_bytes())
+                            )
+                        };
+                        out.eval();
+                        out.count("diffs_built_under_a_deadline");
+                        let r = guard(|| {
+                            let mut c = TextDiff::configure();
+                            c.algorithm(alg);
+                            match dl {
+                                0 => {
+                                    c.deadline(past_deadline());
+                                }
+                                _ => {
+                                    c.deadline(far_deadline());
+                                    similar::verif_hooks::set_clock(similar::verif_hooks::Clock::Fuel([0, 0, 1, 3, u64::MAX][dl as usize]));
+                                }
+                            }
+                            fn run<'a, T: DiffableStr + ?Sized>(c: &similar::TextDiffConfig, tok: usize, a: &'a T, b: &'a T) -> (Vec<(&'static str, String)>, u64) {
+                                let d = match tok {
+                                    0 => c.diff_lines(a, b),
+                                    1 => c.diff_words(a, b),
+                                    _ => c.diff_chars(a, b),
+                                };
+                                similar::verif_hooks::set_clock(similar::verif_hooks::Clock::Off);
+                                check_remapper(&d, a, b)
+                            }
+                            if as_str {
+                                run(&c, tok, a.as_str(), b.as_str())
+                            } else {
+                                run(&c, tok, a.as_bytes(), b.as_bytes())
+                            }
+                        });
+                        similar::verif_hooks::set_clock(similar::verif_hooks::Clock::Off);
+                        match r {
+                            Err(p) => out.violation("panic", format!("remapper panicked: {} | {}", p, ctx())),
+                            Ok((fails, slices)) => {
+                                out.count_n("remapped_slices_observed", slices);
+                                for (code, msg) in fails.into_iter().take(3) {
+                                    out.violation(code, format!("{} | {}", msg, ctx()));
+                                }
+                            }
+                        }
+                    }
+                }
+            },
+        ),
+        family(
             "distinct_boundary",
             "texts of n DISTINCT lines with n just below 256 / 4096 / 65536 (both sides) where a block is swapped for fresh lines so that both sides together cross the boundary: remapper + helpers on the line tokenizer x {Myers, Patience}",
             true,
